@@ -60,7 +60,11 @@ with fpiece :=
 | FSafeStr (v : fverb) (s : str)            (* redact.Safe(string) *)
 | FInt (v : fverb) (z : Z)
 | FSafeInt (v : fverb) (z : Z)
-| FErr (v : fverb) (r : recipe).
+| FErr (v : fverb) (r : recipe)
+(* arguments without a verb (always last): printed as %!(EXTRA type=value, ...) *)
+| FXStr (s : str)
+| FXSafeStr (s : str)
+| FXInt (z : Z).
 
 Record benv := mkbenv { be_stacks : list stack }.
 Record bstate := mkbs { bs_oid : positive; bs_stk : nat }.
@@ -125,6 +129,25 @@ Fixpoint build (r : recipe) (s : bstate) {struct r} : option err * bstate :=
         | FSafeStr _ x => build_fmt rest (bf_add acc (PSafe x) x) s
         | FInt _ z => build_fmt rest (bf_add acc (PUnsafe (dec_of_Z z)) (dec_of_Z z)) s
         | FSafeInt _ z => build_fmt rest (bf_add acc (PSafe (dec_of_Z z)) (dec_of_Z z)) s
+        | FXStr _ | FXSafeStr _ | FXInt _ =>
+          (* the run of extra arguments, up to the end of the call *)
+          let one := fun (q : fpiece) =>
+            match q with
+            | FXStr x => ([PLit (lit "string="); PUnsafe x], lit "string=" ++ x)
+            | FXSafeStr x => ([PLit (lit "redact.safeWrapper="); PSafe x], lit "redact.safeWrapper=" ++ x)
+            | FXInt z => ([PLit (lit "int="); PUnsafe (dec_of_Z z)], lit "int=" ++ dec_of_Z z)
+            | _ => ([], [])
+            end in
+          let extras := (fix go (l : list fpiece) (first : bool) : list piece * str :=
+            match l with
+            | [] => ([PLit (lit ")")], lit ")")
+            | q :: r =>
+              let '(ps, pl) := one q in
+              let '(rs, rl) := go r false in
+              ((if first then [] else [PLit (lit ", ")]) ++ ps ++ rs, (if first then [] else lit ", ") ++ pl ++ rl)
+            end) (p :: rest) true in
+          (mkbf (bf_pieces acc ++ PLit (lit "%!(EXTRA ") :: fst extras) (bf_plain acc ++ lit "%!(EXTRA " ++ snd extras)
+                (bf_wrapped acc) (bf_errs acc) (bf_nw acc), s)
         | FErr v x =>
           let '(o, s1) := build x s in
           match o with
